@@ -121,22 +121,6 @@ func New(d *Decider) *Sim {
 }
 
 //go:norace
-func goid() uint64 {
-	var buf [40]byte
-	n := runtime.Stack(buf[:], false)
-	// "goroutine 123 ["
-	var id uint64
-	for i := 10; i < n; i++ {
-		c := buf[i]
-		if c < '0' || c > '9' {
-			break
-		}
-		id = id*10 + uint64(c-'0')
-	}
-	return id
-}
-
-//go:norace
 func (s *Sim) self() *Task {
 	g := goid()
 	n := int(atomic.LoadInt32(&s.ntasks))
@@ -232,8 +216,14 @@ func (s *Sim) Panicked() bool { return s.Panic != nil }
 //go:norace
 func (s *Sim) PanicText() string { return s.PanicTxt }
 
+// markDone ends a task. Its goroutine identity is forgotten: the runtime
+// reuses the descriptor of a finished goroutine for a new one.
+//
 //go:norace
-func markDone(t *Task) { atomic.StoreInt32(&t.state, StDone) }
+func markDone(t *Task) {
+	t.goid = 0
+	atomic.StoreInt32(&t.state, StDone)
+}
 
 //go:norace
 func park(t *Task) int {
